@@ -12,6 +12,7 @@ require (
 	filippo.io/edwards25519 v1.0.0 // indirect
 	github.com/pkg/errors v0.8.1 // indirect
 	golang.org/x/sys v0.29.0 // indirect
+	golang.org/x/text v0.4.0 // indirect
 )
 
 require (
